@@ -36,8 +36,8 @@ Theorem C09_recall_outside_known :
          (es : list entry) (q : qsketch) (top_k : N) (has_text no_sketch : bool)
          (cf0 : option (list N)) (has_lex : bool) (M : list N),
     let rq := mkSreq top_k None has_text no_sketch in
-    top_k * 10 <= USIZE_MAX ->
-    NoDup M -> M <> [] -> len M <= top_k ->
+    top_k <= USIZE_MAX ->
+    NoDup M -> M <> [] -> len M <= top_k ->          (* top_k <= USIZE_MAX: top_k is a usize *)
     (forall f, In f M -> in_cf cf0 f = true) ->
     engine_recall engine M ->
     (forall f, In f M -> evaluable toc top_k f = true) ->
@@ -58,7 +58,7 @@ Theorem C09_recall_no_sketch_outside_known :
          (engine : option (list N) -> N -> list (N * N)) (toc : N -> tocfacts) (combined : N -> Z -> N)
          (es : list entry) (q : qsketch) (top_k : N) (has_text : bool) (has_lex : bool) (M : list N),
     let rq := mkSreq top_k None has_text true in
-    top_k * 10 <= USIZE_MAX ->
+    top_k <= USIZE_MAX ->
     NoDup M -> M <> [] -> len M <= top_k ->
     engine_recall engine M ->
     (forall f, In f M -> evaluable toc top_k f = true) ->
@@ -89,7 +89,7 @@ Proof. exact bloom_side_never_rejects. Qed.
 Print Assumptions C09_bloom_side_never_rejects.
 
 (* (b) the sketch candidates are exactly the ids of the entries passing
-       `overlap && hamming <= 32`, cut to max_candidates = max(500, 10 * top_k) *)
+       `overlap && hamming <= 32`, cut to max_candidates = max(500, top_k.saturating_mul(10)) *)
 Theorem C09_sketch_candidates_characterised :
   forall (S : Type) (score_fn : N -> N -> N -> N -> N -> S) (s_le : S -> S -> bool) (s_zero : S),
     (forall a b c d e, s_le s_zero (score_fn a b c d e) = true) ->
@@ -109,7 +109,7 @@ Qed.
 Print Assumptions C09_sketch_candidates_characterised.
 
 (* (c) hence the class is empty whenever every matching frame has an entry under its own
-       number that passes the test, and no more than max(500, 10 * top_k) entries pass: what
+       number that passes the test, and no more than max(500, sat(10 * top_k)) entries pass: what
        remains is a Hamming distance above 32, the max_candidates cut, or an entry carrying
        another frame's number (after reopen, see (6)). *)
 Theorem C09_sketch_class_needs_failing_entry :
@@ -117,7 +117,7 @@ Theorem C09_sketch_class_needs_failing_entry :
     (forall a b c d e, s_le s_zero (score_fn a b c d e) = true) ->
     forall (es : list entry) (q : qsketch) (top_k : N) (has_text no_sketch : bool) (cf0 : option (list N)) (M : list N),
       (forall f, In f M -> exists e, In e es /\ e_frame_id e = f /\ entry_passes q SKETCH_HAMMING_THRESHOLD e = true) ->
-      len (filter (entry_passes q SKETCH_HAMMING_THRESHOLD) es) <= N.max (top_k * 10) SKETCH_MIN_CANDIDATES ->
+      len (filter (entry_passes q SKETCH_HAMMING_THRESHOLD) es) <= sketch_max_candidates top_k ->
       known_sketch S score_fn s_le s_zero es q (mkSreq top_k None has_text no_sketch) cf0 M = false.
 Proof. intros S score_fn s_le s_zero Hz. apply passing_entries_never_dropped. exact Hz. Qed.
 Print Assumptions C09_sketch_class_needs_failing_entry.
@@ -144,7 +144,7 @@ Definition witness_combined (s : N) (_ : Z) : N := s.
 
 Theorem C09_recall_refuted_sketch :
   exists (es : list entry) (q : qsketch) (top_k : N) (M : list N),
-    NoDup M /\ M <> [] /\ len M <= top_k /\ top_k * 10 <= USIZE_MAX /\
+    NoDup M /\ M <> [] /\ len M <= top_k /\ top_k <= USIZE_MAX /\
     engine_recall witness_engine M /\
     (forall f, In f M -> evaluable witness_toc top_k f = true) /\
     known_snippets unit unit_score unit_le tt witness_engine witness_toc witness_combined es q (mkSreq top_k None true false) None = false /\
@@ -188,7 +188,7 @@ Theorem C09_recall_refuted_no_sketch :
   forall (S : Type) (score_fn : N -> N -> N -> N -> N -> S) (s_le : S -> S -> bool) (s_zero : S)
          (es : list entry) (q : qsketch),
   exists (top_k : N) (M : list N),
-    NoDup M /\ M <> [] /\ len M <= top_k /\ top_k * 10 <= USIZE_MAX /\
+    NoDup M /\ M <> [] /\ len M <= top_k /\ top_k <= USIZE_MAX /\
     engine_recall crowd_engine M /\
     (forall f, In f M -> evaluable crowd_toc top_k f = true) /\
     known_sketch S score_fn s_le s_zero es q (mkSreq top_k None true true) None M = false /\
@@ -260,7 +260,7 @@ Example C09_hypotheses_satisfiable :
   (forall f, In f M -> evaluable witness_toc 2 f = true) /\
   known_sketch unit unit_score unit_le tt es q rq None M = false /\
   known_snippets unit unit_score unit_le tt engine witness_toc witness_combined es q rq None = false /\
-  final_filter unit unit_score unit_le tt es q true false 2 None = Ok (Some [0; 2]) /\
+  final_filter unit unit_score unit_le tt es q true false 2 None = Some [0; 2] /\
   option_map hit_frames
     (match search unit unit_score unit_le tt engine witness_toc witness_combined es q rq None false with
      | Ok p => p | _ => None end) = Some [2; 0].
